@@ -57,7 +57,7 @@ class Extractor:
         inp = [('param', d['name']) for b, d in B.defs.items() if d['kind'] == 'param' and not d['proj']]
         if len(inp) != 1:
             return None
-        chains, rejects = [], 0
+        chains, errs = [], []
         for o in outs:
             v = o.val
             if o.kind in ('val', 'ret') and v[0] == 'ctor' and v[1] == 'Ok' and len(v[2]) == 1 and v[2][0][0] == 'tuple' and len(v[2][0][1]) == 2:
@@ -65,15 +65,17 @@ class Extractor:
                 if ch is None:
                     return None
                 chains.append(ch)
-            elif o.kind in ('val', 'ret') and v[0] == 'tryerr':
-                continue            # the failure of an applied parser, propagated: the sequence fails where that parser fails
-            elif o.kind in ('val', 'ret') and v[0] == 'ctor' and v[1] == 'Err':
-                rejects += 1
+            elif o.kind in ('val', 'ret') and (v[0] == 'tryerr' or (v[0] == 'ctor' and v[1] == 'Err')):
+                errs.append(v)
             else:
                 return None         # a panic, an unfinished loop, a value that is not a parser result
-        if not chains or any(repr(c) != repr(chains[0]) for c in chains[1:]):
+        if not chains or any(repr([g for g, a in c]) != repr([g for g, a in chains[0]]) for c in chains[1:]):
             return None
-        g = flat(('seq', chains[0])) if chains[0] else None
+        # an error path that propagates the failure of one of the chain's own parser applications (`?`) is that parser failing:
+        # the sequence fails there.  Every other error path rejects input the chain would have consumed: a semantic rejection
+        apps = {a for c in chains for g, a in c if a is not None}
+        rejects = [v for v in errs if not (v[0] == 'tryerr' and v[1] in apps)]
+        g = flat(('seq', [g for g, a in chains[0]])) if chains[0] else None
         if g is None:
             return None
         if rejects:
@@ -82,7 +84,8 @@ class Extractor:
         return g
 
     def cursor_chain(self, t, inp, B):
-        """[grammar element ...] consumed between the input parameter and the remainder term t; None if t is not such a term"""
+        """[(grammar element, term of the parser application | None) ...] consumed between the input parameter and the remainder
+        term t; None if t is not such a term"""
         if t == inp:
             return []
         ps = prefix_split(t)
@@ -94,7 +97,8 @@ class Extractor:
             name = self.pred_class(pred, B)
             if head is None or name is None:
                 return None
-            return head + [('plus' if one_or_more else 'star', ('class', name))]
+            app = t[1][1] if t[1][0] == 'variant' else None
+            return head + [(('plus' if one_or_more else 'star', ('class', name)), app)]
         # the remainder of a parser application: `(.0 of the Ok payload of  <parser>(cursor))`
         if t[0] == 'field' and t[2] == '0' and t[1][0] == 'variant' and t[1][2] == 'Ok' and t[1][3] == 0 and t[1][1][0] == 'call':
             app = t[1][1]
@@ -104,10 +108,10 @@ class Extractor:
                 if head is None or node is None or node.get('k') != 'Call':
                     return None
                 g = self.comb(node['f'])
-                return None if g[0] == 'unknown' else head + [g]
+                return None if g[0] == 'unknown' else head + [(g, app)]
             if app[1].startswith(self.prefix) and len(app[2]) == 1:
                 head = self.cursor_chain(app[2][0], inp, B)
-                return None if head is None else head + [('ref', app[1])]
+                return None if head is None else head + [(('ref', app[1]), app)]
         return None
 
     def pred_class(self, pred, B):
@@ -604,7 +608,7 @@ def show_seq(t):
         elif a[0] == 'r':
             out.append(' %s ' % a[1])
         elif a[0] in ('star', 'plus'):
-            out.append('(%s)%s' % ('|'.join(sorted(show_seq(x) for x in a[1]))[:40], '*' if a[0] == 'star' else '+'))
+            out.append('(%s)%s' % ('|'.join(sorted(show_seq(x) for x in a[1]))[:160], '*' if a[0] == 'star' else '+'))
         else:
-            out.append('{%s}' % '|'.join(sorted(show_seq(x) for x in a[2]))[:40])
+            out.append('{%s}' % '|'.join(sorted(show_seq(x) for x in a[2]))[:160])
     return ''.join(out)
